@@ -193,12 +193,61 @@ def probe(seed):
                     bad.append([lows, highs, forms, layers, enabled, x, list(got), list(want), list(entered)])
         deal.enable()
     return bad
+
+def nested(seed):
+    # a dispatched call made from inside a precondition of an implementation that is itself being dispatched (deal switches contracts
+    # off while a validator runs; dispatch works with contracts off): the nested call still runs the first implementation whose guard
+    # accepts and enters no other body, under both switch positions, and the switch is left as it was
+    from deal._state import state
+    rnd = random.Random(seed)
+    bad = []
+    for _ in range(30):
+        n = rnd.randint(2, 4)
+        lows = [rnd.randint(0, 6) for _ in range(n)]; highs = [l + rnd.randint(0, 4) for l in lows]
+        entered = []
+        @deal.dispatch
+        def inner(x): raise NotImplementedError
+        for i in range(n):
+            def impl(x, i=i):
+                entered.append(i); return i
+            inner.register(deal.pre((lambda lo, hi: (lambda x: lo <= x <= hi))(lows[i], highs[i]))(impl))
+        def ref(x): return next((i for i in range(n) if lows[i] <= x <= highs[i]), None)
+        def safe_inner(x):
+            try: return inner(x)
+            except deal.NoMatchError: return None
+        k = rnd.randint(0, n - 1)
+        @deal.dispatch
+        def outer(x): raise NotImplementedError
+        @outer.register
+        @deal.pre(lambda x: safe_inner(x) == k)
+        def _a(x): return ("a", x)
+        @outer.register
+        def _b(x): return ("b", x)
+        for enabled in (True, False):
+            (deal.enable if enabled else deal.disable)()
+            for x in range(-1, 12):
+                del entered[:]
+                try: got = outer(x)
+                except BaseException as e: got = ("exc", type(e).__name__)
+                want = ("a", x) if ref(x) == k else ("b", x)
+                want_entered = [ref(x)] if ref(x) is not None else []
+                if got != want or entered != want_entered or state.debug is not enabled:
+                    bad.append([lows, highs, k, enabled, x, list(got), list(want), list(entered), want_entered, state.debug])
+        deal.enable()
+    return bad
 """
 
 
 def run(ctx, fr, model_available=True):
     base_scn.run(_me, ctx, fr, model_available)
     from ..harness import impl
+    r = impl.run_impl('pyexec.py', {'src': WRAPPED_SRC, 'calls': [['nested', [ctx.seed]]]})[0]
+    fr.evaluations += 30 * 26; fr.add_nontrivial({'nested_probe': ctx.seed})
+    fr.samples.append({'family': 'dispatch from inside a precondition of a dispatched implementation', 'deviations': r if isinstance(r, dict) else len(r)})
+    if isinstance(r, dict): fr.errors.append('C12 nested probe failed: ' + str(r)[:400])
+    elif r:
+        fr.violations.append({'scenario': {'family': 'nested-dispatch-in-validator', 'seed': ctx.seed, 'case': r[0]}, 'impl': r[:3], 'signature': None,
+                              'what': f'[lows, highs, k, enabled, x, got, expected, inner bodies entered, expected, switch afterwards] = {r[0]}'})
     r = impl.run_impl('pyexec.py', {'src': WRAPPED_SRC, 'calls': [['probe', [ctx.seed]]]})[0]
     fr.evaluations += 40; fr.add_nontrivial({'wrapped_probe': ctx.seed})
     fr.samples.append({'family': 'dispatch over wrapped implementations', 'deviations': r if isinstance(r, dict) else len(r)})
